@@ -420,6 +420,41 @@ M('C17', 'ni-check-on-claimed-algorithm', PGP, "                    if verified 
 M('C17', 'ni-compared-with-none', PGP, "                    if verified is NotImplemented:", "                    if verified is None:", 'C17.4')
 M('C17', 'ni-check-dropped', PGP, "                    if verified is NotImplemented:\n                        raise NotImplementedError(sig.key_algorithm)\n", "", 'C17.4')
 
+# ---- seventh round (wave 6): MPI reader discards bits, Timestamp for an empty subject, disqualified arm records a partial set
+#      (under C01), cached verdict surviving a mutation, overlapping owner collections
+_MPI_RD = "            mpi = MPIs.bytes_to_int(num[:fl])\n"
+_MPI_FL = "            fl = ((MPIs.bytes_to_int(num[:2]) + 7) // 8)\n            del num[:2]\n\n"
+M('C01', 'mpi-masked-to-declared-bits', PT, _MPI_FL + _MPI_RD,
+  "            bits = MPIs.bytes_to_int(num[:2])\n            fl = ((bits + 7) // 8)\n            del num[:2]\n\n            mpi = MPIs.bytes_to_int(num[:fl]) & ((1 << bits) - 1)\n", 'C01.9')
+M('C01', 'mpi-leading-octet-skipped', PT, _MPI_RD, "            mpi = MPIs.bytes_to_int(num[1:fl])\n", 'C01.9')
+M('C01', 'mpi-length-rounded-down', PT, "            fl = ((MPIs.bytes_to_int(num[:2]) + 7) // 8)\n", "            fl = (MPIs.bytes_to_int(num[:2]) // 8)\n", 'C01.9')
+T('C01', 'twin-mpi-bits-local', PT, _MPI_FL + _MPI_RD,
+  "            bits = MPIs.bytes_to_int(num[:2])\n            fl = ((bits + 7) // 8)\n            del num[:2]\n\n            mpi = MPIs.bytes_to_int(num[:fl])\n")
+_SIGN_NONE = "        if subject is None:\n            sig_type = SignatureType.Timestamp\n"
+M('C01', 'timestamp-for-empty-subject', PGP, _SIGN_NONE, "        if not subject:\n            sig_type = SignatureType.Timestamp\n", 'C01.10')
+M('C01', 'timestamp-for-short-subject', PGP, _SIGN_NONE, "        if subject is None or len(subject) == 0:\n            sig_type = SignatureType.Timestamp\n", 'C01.10')
+M('C01', 'standalone-for-bytes-subject', PGP, _SIGN_NONE, "        if subject is None or isinstance(subject, bytearray):\n            sig_type = SignatureType.Timestamp\n", 'C01.10')
+T('C01', 'twin-sign-type-ifelse', PGP, "        sig_type = SignatureType.BinaryDocument\n        hash_algo = prefs.pop('hash', None)\n\n" + _SIGN_NONE,
+  "        hash_algo = prefs.pop('hash', None)\n\n        if subject is not None:\n            sig_type = SignatureType.BinaryDocument\n        else:\n            sig_type = SignatureType.Timestamp\n")
+M('C01', 'disqualified-records-primitives', PGP, "                    sigv.add_sigsubj(sig, self, subj, issues)\n", "                    sigv.add_sigsubj(sig, self, subj, signature_issues)\n", 'C01.4')
+M('C01', 'branch-inverted', PGP, "                if issues and issues.causes_signature_verify_to_fail:", "                if issues and not issues.causes_signature_verify_to_fail:", 'C01')
+M('C01', 'disqualified-records-ok', PGP, "                    sigv.add_sigsubj(sig, self, subj, issues)\n", "                    sigv.add_sigsubj(sig, self, subj, SecurityIssues.OK)\n", 'C01.4')
+_CACHE_SLOTS = "    __slots__ = (\"_subjects\", \"_verdict\")\n"
+_CACHE_BOOL = "        if self._verdict is None:\n            self._verdict = all(\n                sigsub.issues is SecurityIssues.OK\n                or (sigsub.issues and not sigsub.issues.causes_signature_verify_to_fail)\n                for sigsub in self._subjects\n            )\n        return self._verdict"
+def _cache(inval_add=True, inval_and=True):
+    return [(TY, _INIT_S, _INIT_S + "        self._verdict = None\n"), (TY, _BOOL, _CACHE_BOOL),
+            (TY, _ADD_APP, _ADD_APP + ("        self._verdict = None\n" if inval_add else "")),
+            (TY, _AND, ("        self._verdict = None\n" if inval_and else "") + _AND)]
+for _p in ('C01', 'C17'):
+    _r = 'C01.4' if _p == 'C01' else 'C17.2'
+    T(_p, 'twin-verdict-cache-invalidated', TY, _SLOTS, _CACHE_SLOTS, more=_cache())
+    M(_p, 'verdict-cache-survives-and', TY, _SLOTS, _CACHE_SLOTS, _r, more=_cache(inval_and=False))
+    M(_p, 'verdict-cache-survives-add', TY, _SLOTS, _CACHE_SLOTS, _r, more=_cache(inval_add=False))
+_UIDLOOP = "                for uid in subject.userids:\n"
+M('C17', 'userid-loop-walks-all-uids', PGP, _UIDLOOP, "                for uid in subject._uids:\n", 'C17.3')
+M('C17', 'userattribute-loop-walks-userids', PGP, "                for ua in subject.userattributes:\n", "                for ua in subject.userids:\n", 'C17.3')
+T('C17', 'twin-userid-loop-filtered-uids', PGP, _UIDLOOP, "                for uid in (u for u in subject._uids if u.is_uid):\n")
+
 # ---- further spellings of the same functions (generalisation guards)
 T('C17', 'twin-pred-len-list', CO, _PRED,
   "        hits = [f for f in (SecurityIssues.WrongSig, SecurityIssues.Expired, SecurityIssues.Disabled, SecurityIssues.Invalid, SecurityIssues.NoSelfSignature) if f & self]\n        return len(hits) > 0")
